@@ -1472,6 +1472,7 @@ class Message(ABC):
                     if (
                         value != DATETIME_ZERO
                         or include_default_values
+                        or meta.optional
                         or self._include_default_value_for_oneof(
                             field_name=field_name, meta=meta
                         )
@@ -1481,6 +1482,7 @@ class Message(ABC):
                     if (
                         value != timedelta(0)
                         or include_default_values
+                        or meta.optional
                         or self._include_default_value_for_oneof(
                             field_name=field_name, meta=meta
                         )
@@ -1508,6 +1510,7 @@ class Message(ABC):
                 elif (
                     value._serialized_on_wire
                     or include_default_values
+                    or meta.optional
                     or self._include_default_value_for_oneof(
                         field_name=field_name, meta=meta
                     )
@@ -1776,6 +1779,7 @@ class Message(ABC):
                     if (
                         value != DATETIME_ZERO
                         or include_default_values
+                        or meta.optional
                         or self._include_default_value_for_oneof(
                             field_name=field_name, meta=meta
                         )
@@ -1785,6 +1789,7 @@ class Message(ABC):
                     if (
                         value != timedelta(0)
                         or include_default_values
+                        or meta.optional
                         or self._include_default_value_for_oneof(
                             field_name=field_name, meta=meta
                         )
@@ -1804,6 +1809,7 @@ class Message(ABC):
                 elif (
                     value._serialized_on_wire
                     or include_default_values
+                    or meta.optional
                     or self._include_default_value_for_oneof(
                         field_name=field_name, meta=meta
                     )
